@@ -506,6 +506,29 @@ impl Property for C08Prop {
                 format!("`{}` called with {:?}: expected {}, got {}", routes.function, args, expected.show(), o.short()),
             );
         }
+        // route 2b: the operands are variables of the embedding interpreter (the same program text for
+        // every operand pair; what the text means depends on the interpreter it is parsed against)
+        if let Some(expr) = routes.function.split_once("return ").and_then(|(_, r)| r.rsplit_once(';')).map(|(e, _)| e.to_string())
+            && args.len() <= 2
+        {
+            stats.eval();
+            let mut interp = simplesl::Interpreter::without_stdlib();
+            for (name, v) in ["a", "b"].iter().zip(args.iter()) {
+                interp.insert((*name).into(), v.clone());
+            }
+            run::default_budget();
+            let o = match run::parse_guarded(&interp, &expr) {
+                Ok(Ok(code)) => run::exec_guarded(&code),
+                Ok(Err(kind)) => Outcome::Rejected(kind),
+                Err(o) => o,
+            };
+            if !outcome_matches(&o, &expected, true) {
+                return fail(
+                    format!("C08:{kind}:{op}:host-variables"),
+                    format!("`{expr}` parsed against an interpreter that holds {:?} as a, b: expected {}, got {}", args, expected.show(), o.short()),
+                );
+            }
+        }
         // route 3: run time, in-language call
         stats.eval();
         let o = run::run_text(&routes.call, false);
